@@ -111,7 +111,7 @@ fn dump_batches<C: BatchCodec>(codec: &C, base: &Path, lab: impl Fn(C::Label) ->
     // the layout of the sorter's temporary files is an internal detail: when nothing follows
     // the scheme known here but other files exist, the batch files are reported as not
     // inspected (a single marker entry) instead of as absent
-    if out.is_empty() && unknown > 0 { return vec![vec![usize::MAX]]; }
+    if out.is_empty() && unknown > 0 { return vec![vec![0]]; }
     out
 }
 
